@@ -8,6 +8,8 @@ Line protocol of C10 (model `Model/Valset.lean`).
 Pure ops (stateless):  tx <chain> <vals>      en <powers>
 Stateful ops:          reset | stake <svals> | reg <v> <accts> | sup <c> | act <c> | rem <c>
                        build <now> <picks> | onchain <id> <c> | jit <c> <pick 0|1> | valset <id> <c>
+`build` answers `built <id> …`, `none …` (not worthy) or `panic …` (Go's `QuoInt(TotalShares)` divides
+by zero: `buildPanics`; the harness reports a panicking op the same way, with the state unchanged).
 -/
 namespace Driver.C10
 open Paloma.Valset
@@ -125,7 +127,7 @@ def step (d : State) (args : List String) : State × String :=
       let d' : State := { d with s := r.1 }
       let o := match r.2 with
         | some sn => s!"built {sn.id}"
-        | none => "none"
+        | none => if buildPanics d.s now then "panic" else "none"
       (d', o ++ " " ++ showState d')
     | _, _ => (d, "bad-op")
   | ["onchain", i, c] =>
